@@ -892,9 +892,9 @@ pub fn gen_group_case(bytes: &[u8], gp: &GroupProfile) -> GroupCase {
     let keyed = c.coin(110);
     let init = match c.weighted(&[(0u8, 60), (1, 26), (2, 14)]) {
         0 => Init::New,
-        1 => Init::WithCap([0usize, 1, 2, 3, 4, 8, 23, 64][c.choice(8)]),
+        1 => Init::WithCap([0usize, 1, 2, 3, 4, 8, 23, 64, 40, 63, 65, 100][c.choice(12)]),
         _ => {
-            let n = c.choice(5);
+            let n = if c.coin(40) { 9 + c.choice(8) } else { c.choice(5) };
             Init::FromIter((0..n).map(|_| gen_member(&mut c, gp)).collect())
         }
     };
@@ -902,7 +902,22 @@ pub fn gen_group_case(bytes: &[u8], gp: &GroupProfile) -> GroupCase {
     let mut ops = Vec::with_capacity(nops);
     let extend_w = if gp.fam == Family::FutGroup { 3 } else { 0 };
     for _ in 0..nops {
-        let k = c.weighted(&[(0u8, 24), (1, 30), (2, 22), (3, 12), (4, 4), (5, extend_w), (6, gp.p_drop)]);
+        let k = c.weighted(&[(0u8, 24), (1, 30), (2, 22), (3, 12), (4, 4), (5, extend_w), (6, gp.p_drop), (7, 2)]);
+        if k == 7 {
+            // a burst of inserts of short-lived members: many members ending in
+            // one poll, tables growing across their inline capacities (10, 23)
+            // and bitset blocks (64)
+            let n = c.weighted(&[(3usize, 20), (6, 20), (11, 25), (12, 15), (24, 14), (70, 6)]);
+            for _ in 0..n {
+                let script = match c.weighted(&[(0u8, 50), (1, 30), (2, 20)]) {
+                    0 => vec![],
+                    1 => vec![crate::world::Step::Later],
+                    _ => vec![crate::world::Step::Yield(true)],
+                };
+                ops.push(GOp::Insert(ChildSpec::Leaf(crate::spec::LeafSpec { script, always: false, hint: false })));
+            }
+            continue;
+        }
         ops.push(match k {
             0 => GOp::Insert(gen_member(&mut c, gp)),
             1 => GOp::Act(Action::Poll { reuse: c.coin(70) }),
@@ -913,7 +928,7 @@ pub fn gen_group_case(bytes: &[u8], gp: &GroupProfile) -> GroupCase {
                 thread: c.coin(gp.base.p_thread),
             }),
             3 => GOp::Remove(c.byte()),
-            4 => GOp::Reserve([0usize, 1, 2, 5, 17, 40][c.choice(6)]),
+            4 => GOp::Reserve([0usize, 1, 2, 5, 17, 40, 64, 100, 130][c.choice(9)]),
             5 => {
                 let n = c.choice(4);
                 GOp::Extend((0..n).map(|_| gen_member(&mut c, gp)).collect())
